@@ -150,9 +150,9 @@ def run(ctx):
                 ctx.instance(R)
                 v = codec.sample_value(repo, t)
                 acc = codec.accepts_type(repo, vd, v)
-                if acc is None:
-                    ctx.undecided.append("%s %s.%s -> %s: validate_decoded "
-                                         "not followed" % (R, name, dn, t))
+                if acc is None and t != "str":
+                    ctx.error("%s %s.%s -> %s: the evaluator cannot follow "
+                              "validate_decoded" % (R, name, dn, t))
                     continue
                 if t == "str":
                     # a str value is validated as encoded text by
